@@ -5,6 +5,7 @@
 with the real stdlib, `str()` of odd keys, factory products).  `run(scen, ctx)` executes the op.
 """
 import pathlib
+import datetime
 import collections, copy, datetime, enum, gc, io, json, os, re, sys, traceback, types, typing as t, warnings
 from decimal import Decimal
 from fractions import Fraction
@@ -78,6 +79,15 @@ def hook_fn(hid):
             v = getattr(self, f, None)
             if type(v) is int and v < 0:
                 raise ValueError('negative ' + f)
+    elif hid.startswith('touch:'):
+        f = hid[len('touch:'):]
+        def h(self):
+            v = getattr(self, f, None)
+            if type(v) is dict:
+                v.pop('__touched', None)
+                v['__touched'] = 1
+            elif type(v) is list:
+                v.append(0)
     elif hid.startswith('fill:'):
         f = hid[len('fill:'):]
         def h(self):
@@ -394,6 +404,13 @@ def leaves(x, out, depth=0):
             out.setdefault('keys', []).append(k)
             leaves(k, out, depth + 1)
             leaves(v, out, depth + 1)
+    elif isinstance(x, PaneBase) and depth < 6:
+        # a dataclass instance: its field values (whatever they hold: it may have been built unchecked)
+        for f in type(x).__pane_info__.fields:
+            try:
+                leaves(getattr(x, f.name), out, depth + 1)
+            except AttributeError:
+                pass
     else:
         out.setdefault('scalars', []).append(x)
 
@@ -450,12 +467,25 @@ def ext_tables(ctx, values, tys_json, bounds=()):
             fns.append(('sub:' + name, cls, (S.SCALARS[base],)))
     fns.append(('float', float, (int,)))
     fns.append(('complex', complex, (int,)))
+    # a built-in scalar's serialiser is its constructor (`int(x)`, `str(x)` …): on a value of ANOTHER kind (an instance
+    # that was built unchecked) the model asks for the result
+    cross = {'int': (float, str, complex, Decimal, Fraction, type(None), bytes), 'float': (str, complex, Decimal, Fraction, type(None), bytes),
+             'complex': (str, Decimal, Fraction, type(None), bytes), 'str': (bool, int, float, complex, type(None), bytes, bytearray, Decimal, Fraction),
+             'bool': (int, float, complex, str, type(None), bytes, bytearray, Decimal, Fraction)}
+    for fn, kinds in cross.items():
+        fns.append((fn, {'int': int, 'float': float, 'complex': complex, 'str': str, 'bool': bool}[fn], kinds))
     out = []
     numerics = {}
+    done = set()
     for fn, f, accepts in fns:
         for s in cands:
-            if not isinstance(s, accepts) or (fn in ('float', 'complex') and (type(s) is bool or abs(s) < 2 ** 53)):
+            if not isinstance(s, accepts) or (fn in ('float', 'complex') and type(s) in (int, bool) and (type(s) is bool or abs(s) < 2 ** 53)):
                 continue
+            if fn in cross and type(s) is bool and bool not in accepts:
+                continue
+            if (fn, type(s).__name__, repr(s)) in done:
+                continue
+            done.add((fn, type(s).__name__, repr(s)))
             try:
                 r = f(s)
                 out.append([fn, ctx.enc(s), {'ok': ctx.enc(r)}])
@@ -496,6 +526,28 @@ def ext_tables(ctx, values, tys_json, bounds=()):
     return out, strs
 
 
+def _conds_of(j):
+    """the condition expressions occurring in a type descriptor, in order (canonical text)"""
+    out = []
+    def strip(c):
+        if isinstance(c, dict):
+            return {k: strip(v) for k, v in c.items() if k not in ('_live', '_range')}
+        if isinstance(c, list):
+            return [strip(x) for x in c]
+        return c
+    def walk(x):
+        if isinstance(x, dict):
+            if 'cond' in x and isinstance(x['cond'], dict):
+                out.append(json.dumps(strip(x['cond']), sort_keys=True))
+            for v in x.values():
+                walk(v)
+        elif isinstance(x, list):
+            for v in x:
+                walk(v)
+    walk(j)
+    return out
+
+
 def prepare(scen):
     """build live objects; derive scen['env'] for the model"""
     ctx = LiveCtx()
@@ -529,6 +581,11 @@ def prepare(scen):
                 scen['ty_declared'] = tj
                 scen['ty'] = desc
                 scen['_live_ty'] = live
+                # typing may normalise unions and literals, but a Condition must stay the one that was written: two
+                # conditions that mean different things must never be interchangeable (equal / same hash) for typing's caches
+                want, got = _conds_of(tj), _conds_of(desc)
+                if want != got:
+                    scen['_oracle_pre'] = {'c13': f'the type was written with condition(s) {want} but the type object that was built carries {got}'}
         except Exception:
             pass
     entries = {}
@@ -737,8 +794,15 @@ def run(scen, ctx):
                 orc[name] = ORACLES[name](ctx, scen, T, conv, val, out)
             except Exception as e:  # noqa  (an oracle crash is a harness problem, reported as such)
                 orc[name] = 'ORACLE-ERROR ' + ''.join(traceback.format_exception_only(type(e), e)).strip()
+        if op in ('from_data', 'roundtrip') and isinstance(out, dict):
+            # the same call on the same object a second time: a conversion is a function of (type, handlers, value)
+            again = result_of(ctx, lambda: pane.from_data(val, T, custom=custom) if (op == 'from_data' and scen.get('api', True)) else conv.convert(val))
+            first = out if op == 'from_data' else ({'value': out['x']} if 'x' in out else out)
+            if canon(again) != canon(first) and 'harnessError' not in json.dumps(again):
+                orc['rep'] = f'the same conversion of the same object gave {json.dumps(first)[:160]} and then {json.dumps(again)[:160]}'
         if snapshot(val) != snap:
             orc['c09'] = f'the argument was modified: now {val!r}'
+        orc.update(scen.get('_oracle_pre') or {})
         scen['_oracle'] = orc
         return out
     if op == 'process':
@@ -747,6 +811,34 @@ def run(scen, ctx):
         return run_instance_op(scen, ctx)
     if op in ('cmp', 'repr'):
         return run_cmp(scen, ctx)
+    if op == 'reach':
+        # C18, "handlers passed to a call apply at every depth inside containers, in both directions": serialising a container
+        # whose element types are not declared = serialising every element by its own type with the SAME handlers
+        val = ctx.dec(scen['val'])
+        H = ctx.handlers((scen.get('handlers') or {}).get('globals'))
+        def expect(v):
+            if type(v) is dict:
+                return {expect(k): expect(x) for k, x in v.items()}
+            if type(v) is list:
+                return [expect(x) for x in v]
+            if type(v) is tuple:
+                return tuple(expect(x) for x in v)
+            return pane.into_data(v, type(v), custom=H)
+        try:
+            got = pane.into_data(val, custom=H) if scen.get('ty') is None else pane.into_data(val, ctx.ty(scen['ty']), custom=H)
+            want = expect(val)
+            def norm(v):   # the container kind follows the declared type (Sequence -> tuple); only the ELEMENTS are at stake
+                if isinstance(v, (list, tuple)):
+                    return [norm(x) for x in v]
+                if isinstance(v, dict):
+                    return {(tuple(k) if isinstance(k, list) else k): norm(x) for k, x in v.items()}
+                return v
+            if canon(ctx.enc(norm(got))) != canon(ctx.enc(norm(want))):
+                scen['_oracle'] = {'c18': f'into_data({val!r}, custom=handlers) = {got!r}; element by element with the same handlers: {want!r}'}
+            return {'skip': True}
+        except BaseException as e:  # noqa
+            scen['_oracle'] = {'c18': f'into_data({val!r}, custom=handlers) raised {type(e).__name__}: {e}'}
+            return {'skip': True}
     if op == 'into_dyn':
         val = ctx.dec(scen['val'])
         try:
@@ -847,6 +939,27 @@ def c16_laws(pool):
         except TypeError:
             return None
     import operator as op
+    import copy as _copy
+    # a hash must follow the CURRENT field values: hash an instance, change a (hashable, mutable) nested dataclass inside
+    # it, and compare with an equal instance built afterwards
+    for a in pool:
+        for f in type(a).__pane_info__.fields:
+            inner = getattr(a, f.name, None)
+            if isinstance(inner, PaneBase) and not type(inner).__pane_info__.opts.frozen:
+                h0 = safe(hash, a)
+                if h0 is None:
+                    continue
+                ints = [g.name for g in type(inner).__pane_info__.fields if type(getattr(inner, g.name, None)) is int]
+                if not ints:
+                    continue
+                old = getattr(inner, ints[0])
+                try:
+                    setattr(inner, ints[0], old + 17)
+                    twin = _copy.deepcopy(a)
+                    if safe(op.eq, a, twin) and safe(hash, a) != safe(hash, twin):
+                        return f'{a!r} == {twin!r} but their hashes differ (the first was hashed before its field {f.name}.{ints[0]} changed)'
+                finally:
+                    setattr(inner, ints[0], old)
     for a in pool:
         if safe(op.eq, a, a) is not True:
             return f'{a!r} != itself'
@@ -1378,11 +1491,21 @@ def _mk_pane_safe(bad):
     return _mk_pane(bad)
 
 
+def _pos_or_float():
+    from pane.annotations import Positive
+    return t.Union[t.Annotated[int, Positive], float]
+
+
 TYPE_POOL = [lambda: list[int], lambda: dict[str, float], lambda: list[str], lambda: tuple[int, str], lambda: (int, str),
              lambda: {'a': int}, lambda: set[int], lambda: dict[str, list[int]], lambda: int | None, lambda: list[float],
-             lambda: dict[str, int], lambda: tuple[int, ...], lambda: _mk_pane_safe(False), lambda: _mk_pane_safe(True), lambda: int]
-SAMPLES = [[1, 2], {'k': 1.5}, ['s'], [3, 's'], [4, 't'], {'a': 5}, [6], {'k': [7]}, 8, [1.5], {'k': 9}, [10, 11],
-           {'a': 1, 'b': 2.5, 'c': 'x'}, {'a': 1, 'b': 2.5, 'c': 'x'}, 12]
+             lambda: dict[str, int], lambda: tuple[int, ...], lambda: _mk_pane_safe(False), lambda: _mk_pane_safe(True), lambda: int,
+             # unions whose members overlap: which member answers must not depend on what the converter saw before
+             lambda: datetime.date | str, lambda: _pos_or_float(), lambda: list[datetime.date | str]]
+# several sample values per type; a call converts ONE of them (chosen by the history)
+SAMPLES = [[[1, 2], [3]], [{'k': 1.5}, {}], [['s'], []], [[3, 's'], [4, 't']], [[4, 't'], [5, 'u']], [{'a': 5}, {'a': 6}], [[6], [7, 7]],
+           [{'k': [7]}, {}], [8, None], [[1.5], [2]], [{'k': 9}, {'j': 1}], [[10, 11], []],
+           [{'a': 1, 'b': 2.5, 'c': 'x'}, {'a': 2, 'b': 1, 'c': 'y'}], [{'a': 1, 'b': 2.5, 'c': 'x'}, {'a': 1, 'b': 2.5, 'c': 'x'}], [12, 13],
+           ['to be announced', '2024-02-29', 'tbd'], [-3, 5, 2.5], [['to be announced', '2024-02-29'], ['2024-02-29'], ['x']]]
 _REG = {}
 
 
@@ -1398,15 +1521,16 @@ def _out(f):
         return ('raise', type(e).__name__)
 
 
-def _sig(conv, d=None):
+def _sig(conv, d=None, k=0):
     try:
         base = (type(conv).__name__, conv.expected(True), conv.expected(False))
     except Exception as e:  # noqa
         return ('?', repr(e))
     if d is None:
         return base
-    x = _out(lambda: conv.convert(SAMPLES[d]))
-    y = _out(lambda: conv.into_data(conv.convert(SAMPLES[d])))
+    sample = SAMPLES[d][k % len(SAMPLES[d])]
+    x = _out(lambda: conv.convert(sample))
+    y = _out(lambda: conv.into_data(conv.convert(sample)))
     return base + (x, y)
 
 
@@ -1420,14 +1544,15 @@ def run_history(scen):
     regver = [0]
     fresh = {}
 
-    def fresh_sig(d, hk):
-        key = (d, hk, regver[0] if hk == 3 else 0)
+    def fresh_sig(d, hk, k=0):
+        key = (d, hk, regver[0] if hk == 3 else 0, k % len(SAMPLES[d]))
         if key not in fresh:
             try:
                 hs = _handlers(hk)
                 if hk == 3:
                     hs = dict(hs)      # same contents, an object never seen before
-                fresh[key] = _sig(make_converter.inner_f(TYPE_POOL[d](), ConverterHandlers.make(hs)), d)
+                # a converter built for this one use: it has seen no other value
+                fresh[key] = _sig(make_converter.inner_f(TYPE_POOL[d](), ConverterHandlers.make(hs)), d, k)
             except Exception as e:  # noqa
                 fresh[key] = ('build-error', type(e).__name__)
         return fresh[key]
@@ -1461,7 +1586,8 @@ def run_history(scen):
             _REG[int] = TagConv('tagint:%d' % o[1])
             regver[0] += 1
         elif k == 'call':
-            _, s, hk = o
+            _, s, hk = o[:3]
+            k = o[3] if len(o) > 3 else 0
             if s not in slots:
                 continue
             hid = hk
@@ -1470,10 +1596,10 @@ def run_history(scen):
                 hid = uniq[0]        # a mapping-form handler is wrapped in a fresh closure per call: never equal to an earlier one
             try:
                 conv = make_converter(slots[s], ConverterHandlers.make(_handlers(hk)))
-                sg = _sig(conv, desc[s])
+                sg = _sig(conv, desc[s], k)
             except Exception as e:  # noqa
                 sg = ('build-error', type(e).__name__)
-            want = fresh_sig(desc[s], hk)
+            want = fresh_sig(desc[s], hk, k)
             if want[0] == 'build-error':
                 # make_converter raises for this type: nothing is memoised, so the cache machine has no step for it
                 # (a type object the cache does not pin may be freed and its address reused).  Observed directly only.
@@ -1483,7 +1609,7 @@ def run_history(scen):
             if sg == want:
                 obs.append([desc[s], hid])
             else:
-                match = [d for (d, h2, _), v in fresh.items() if v == sg and h2 == hk]
+                match = [d for (d, h2, _, _), v in fresh.items() if v == sg and h2 == hk]
                 obs.append([match[0] if match else -1, hid])
                 notes.append(f'call on slot {s} (type #{desc[s]}, handlers #{hk}) behaves as {sg!r}; a converter freshly built for the same type and handlers as {want!r}')
             ops.append({'k': 'call', 's': s, 'h': hid})
